@@ -3455,3 +3455,79 @@ func ruleRunsKept(r *Run) {
 	}
 	r.Count("run_list_transformers", n)
 }
+
+// ---------------------------------------------------------------------------
+// R-SPLIT-AWARE (C18): a placeholder may be split across runs ("{" at the end of one run, "{name}}" in
+// the next).  Deciding whether a paragraph / cell contains template syntax by looking at ONE run's
+// text at a time ("does this run contain {{ ?") misses exactly those; the test must be made on the
+// joined text.  On the document-template path, no test for directive syntax takes a single
+// Run.Text.Content as its subject.
+// ---------------------------------------------------------------------------
+
+func ruleSplitAware(r *Run) {
+	p := r.P
+	var roots []*ssa.Function
+	for _, name := range []string{"(*TemplateEngine).RenderTemplateToDocument"} {
+		if f := p.Func(pkgDoc, name); f != nil {
+			roots = append(roots, f)
+		}
+	}
+	if len(roots) == 0 {
+		// role: exported engine methods returning (*Document, error)
+		for _, fn := range p.exportedAPI(pkgDoc) {
+			if fn.Signature.Recv() != nil && typeIs(fn.Signature.Recv().Type(), pkgDoc, "TemplateEngine") && fn.Signature.Results().Len() == 2 && typeIs(fn.Signature.Results().At(0).Type(), pkgDoc, "Document") {
+				roots = append(roots, fn)
+			}
+		}
+	}
+	if len(roots) == 0 {
+		r.Unresolved("template engine entry point returning (*Document, error)")
+		return
+	}
+	n := 0
+	for _, fn := range sortedFuncs(p.staticReach(roots...)) {
+		allInstrs(fn, func(in ssa.Instruction) {
+			c, ok := in.(*ssa.Call)
+			if !ok {
+				return
+			}
+			var subj, needle ssa.Value
+			switch cn := calleeName(c); cn {
+			case "strings.Contains", "strings.Index", "strings.HasPrefix", "strings.HasSuffix", "strings.Count":
+				subj, needle = c.Call.Args[0], c.Call.Args[1]
+			case "(*regexp.Regexp).MatchString", "(*regexp.Regexp).FindStringIndex", "(*regexp.Regexp).FindString":
+				subj = c.Call.Args[1]
+				dir := false
+				for _, pat := range regexPatternsOf(c.Call.Args[0]) {
+					if isDirectiveConst(pat) {
+						dir = true
+					}
+				}
+				if !dir {
+					return
+				}
+			default:
+				return
+			}
+			if needle != nil {
+				s, isC := constString(needle)
+				if !isC || !(strings.Contains(s, "{{") || strings.Contains(s, "}}")) {
+					return
+				}
+			}
+			n++
+			// the subject is the text of one run
+			single := false
+			if ld, ok := stripConv(subj).(*ssa.UnOp); ok && ld.Op == token.MUL {
+				if ch, _ := addrChain(ld.X); len(ch) >= 2 {
+					if fieldIs(p, ch[len(ch)-1], pkgDoc, "Text", "Content") && fieldIs(p, ch[len(ch)-2], pkgDoc, "Run", "Text") {
+						single = true
+					}
+				}
+			}
+			r.Check("split-aware", fmt.Sprintf("%s#%d", shortName(topLevel(fn)), n), c.Pos(), !single,
+				fmt.Sprintf("%s looks for template syntax in the text of a single run; a placeholder whose braces are split across two runs is not seen and stays unreplaced — test the joined text of the paragraph", shortName(topLevel(fn))))
+		})
+	}
+	r.Min("directive_tests_on_document_template_path", n, 3)
+}
